@@ -77,7 +77,7 @@ def compare(lines, il, ml):
         dead = b.endswith(" DEAD")
         if dead:
             # the returned value (and, unless an assertion of ov_theory failed, the result of propagate()) is still compared
-            ntok = 1 if " ASSERT" in b else 2
+            ntok = 1 if (" ASSERT" in b or ln.startswith("A ")) else 2
             if a.split(" ")[:ntok] != b.split(" ")[:ntok]:
                 return k
             return None
